@@ -26,8 +26,7 @@ Proof.
     destruct (existsb _ _); [intros [= <-]; reflexivity|discriminate].
   - unfold clone. destruct (clone_nodes _ _ _ _ _ _ _) as [[[a b] c]|]; [discriminate|intros [= <-]; reflexivity].
   - unfold roundtrip. destruct (rt_domain h); simpl; [|intros [= <-]; reflexivity].
-    destruct (ser_ok h); simpl; [|intros [= <-]; reflexivity].
-    destruct (rt_nodes _ _ _ _) as [a [[b c] d]]. discriminate.
+    destruct (ser_model h); [discriminate|]. intros [= <-]. reflexivity.
 Qed.
 
 (* ------------------------------------------------------------------ invalid requests are rejected *)
@@ -124,15 +123,21 @@ Lemma roundtrip_old_ir h h' :
   s_ir h < MULTI_DEVICE_SUPPORTED_VERSION -> roundtrip h = (h', Ok tt) ->
   s_cfgs h' = [] /\ Forall (fun p => n_dc (snd p) = []) (s_nodes h') /\ DevInv h'.
 Proof.
-  intros Hir. unfold roundtrip. destruct (rt_domain h); simpl; [|discriminate].
-  destruct (ser_ok h); simpl; [|discriminate].
-  assert (E : s_ir h <? MULTI_DEVICE_SUPPORTED_VERSION = true) by lia. rewrite E.
-  rewrite rt_nodes_old_ir by exact Hir. intros [= <-]. simpl.
+  intros Hir R. destruct (rt_domain h) eqn:D; [|unfold roundtrip in R; rewrite D in R; discriminate].
+  destruct (ser_ok h) eqn:S; [|unfold roundtrip, ser_model in R; rewrite D, S in R; discriminate].
+  rewrite (roundtrip_old_ir_state h D S Hir) in R. injection R as <-. simpl.
   assert (F : Forall (fun p : Z * node => n_dc (snd p) = [])
                 (map (fun p : Z * node => (fst p, with_dc (snd p) [])) (s_nodes h))).
   { rewrite Forall_map. apply Forall_forall. intros p _. reflexivity. }
   split; [reflexivity|]. split; [exact F|]. apply inv_initial; [reflexivity | exact F].
 Qed.
+
+(* the serialized model names every reference by the CURRENT name of the object *)
+Lemma ser_model_current_names h p :
+  ser_model h = Ok p ->
+  mp_cfgs p = (if s_ir h <? MULTI_DEVICE_SUPPORTED_VERSION then [] else map (fun c => (c_name c, c_ndev c)) (s_cfgs h))
+  /\ mp_nodes p = map (fun q => (fst q, if rt_keep h (fst q) then map (ser_dc_raw h) (n_dc (snd q)) else [])) (s_nodes h).
+Proof. unfold ser_model. destruct (ser_ok h); simpl; [|discriminate]. intros [= <-]. split; reflexivity. Qed.
 
 (* ------------------------------------------------------------------ examples: the hypotheses are satisfiable *)
 Definition ex_x := mkV 0 (Some 2).
